@@ -12,6 +12,7 @@ var specs = map[string]func(tier string) *Spec{}
 
 func main() {
 	pool.Register("seqmc", worker)
+	pool.Register("c04", c04Worker)
 	pool.WorkerMain()
 	if len(os.Args) < 2 {
 		fmt.Fprintln(os.Stderr, "usage: seqmc <property> | seqmc replay <file>")
@@ -19,6 +20,13 @@ func main() {
 	}
 	if os.Args[1] == "replay" {
 		os.Exit(replayFile(os.Args[2]))
+	}
+	if os.Args[1] == "bench" {
+		bench()
+		return
+	}
+	if os.Args[1] == "C04" {
+		os.Exit(runC04())
 	}
 	os.Exit(runSpec(os.Args[1]))
 }
